@@ -212,22 +212,28 @@ func emitDeliver(fs *strings.Builder, p *pkg, c *consts, funcs map[string]string
 		}
 		return e.act
 	}
-	var walk func(list []ast.Stmt, e env, ind string) string
-	walk = func(list []ast.Stmt, e env, ind string) string {
+	var walk func(list []ast.Stmt, e env, ind string, onReturn func(x ast.Expr, e env, ind string) string) string
+	walk = func(list []ast.Stmt, e env, ind string, onReturn func(x ast.Expr, e env, ind string) string) string {
 		if len(list) == 0 {
+			if onReturn != nil {
+				fail("%s: a helper ends without returning", who)
+			}
 			return finish(e)
 		}
 		st, rest := list[0], list[1:]
 		t := &tr{atoms: e.atoms, c: c, funcs: funcs, who: who}
 		switch v := st.(type) {
 		case *ast.ReturnStmt:
-			if len(v.Results) == 0 {
+			if len(v.Results) == 0 && onReturn == nil {
 				return finish(e)
+			}
+			if len(v.Results) == 1 && onReturn != nil {
+				return onReturn(v.Results[0], e, ind)
 			}
 		case *ast.SwitchStmt:
 			if v.Tag == nil && v.Init == nil {
 				if conv := switchToIf(v); conv != nil {
-					return walk(append([]ast.Stmt{conv}, rest...), e, ind)
+					return walk(append([]ast.Stmt{conv}, rest...), e, ind, onReturn)
 				}
 			}
 		case *ast.ExprStmt:
@@ -237,18 +243,18 @@ func emitDeliver(fs *strings.Builder, p *pkg, c *consts, funcs map[string]string
 			}
 			switch {
 			case src(call.Fun) == "c.log":
-				return walk(rest, e, ind)
+				return walk(rest, e, ind, onReturn)
 			case src(call.Fun) == "c.handleRequestLocked" && len(call.Args) == 1 && src(call.Args[0]) == mv:
 				ne := clone(e)
 				ne.act = "DeliverAct.callback"
-				return walk(rest, ne, ind)
+				return walk(rest, ne, ind, onReturn)
 			case src(call.Fun) == "delete" && len(call.Args) == 2 && src(call.Args[0]) == "c.pending":
 				if e.key == "" || t.expr(call.Args[1]) != e.key {
 					fail("%s: deletes a pending entry other than the one it looked up", who)
 				}
 				ne := clone(e)
 				ne.deleted = "true"
-				return walk(rest, ne, ind)
+				return walk(rest, ne, ind, onReturn)
 			}
 		case *ast.SendStmt:
 			if e.pv != "" && src(v.Chan) == e.pv+".ch" {
@@ -261,9 +267,38 @@ func emitDeliver(fs *strings.Builder, p *pkg, c *consts, funcs map[string]string
 				default:
 					fail("%s: sends %q to the waiting request", who, src(v.Value))
 				}
-				return walk(rest, ne, ind)
+				return walk(rest, ne, ind, onReturn)
 			}
 		case *ast.AssignStmt:
+			// p := c.helper(id): an unexported method that looks the entry up (and may remove it) is inlined,
+			// each of its returns continuing here
+			if v.Tok == token.DEFINE && len(v.Lhs) == 1 && len(v.Rhs) == 1 && onReturn == nil {
+				if call, ok := v.Rhs[0].(*ast.CallExpr); ok {
+					if sel, ok := call.Fun.(*ast.SelectorExpr); ok && src(sel.X) == "c" && !ast.IsExported(sel.Sel.Name) {
+						if hd, _ := findFunc(p, "Client", sel.Sel.Name); hd != nil && hd.Body != nil && hd.Type.Params.NumFields() == len(call.Args) {
+							he := clone(e)
+							k := 0
+							for _, f := range hd.Type.Params.List {
+								for _, nm := range f.Names {
+									he.atoms[nm.Name] = t.expr(call.Args[k])
+									k++
+								}
+							}
+							lhs := src(v.Lhs[0])
+							return walk(hd.Body.List, he, ind, func(x ast.Expr, re env, ind string) string {
+								if re.pv == "" || src(x) != re.pv {
+									fail("%s: helper %s returns %q", who, sel.Sel.Name, src(x))
+								}
+								ne := clone(e)
+								ne.pv, ne.key, ne.deleted = lhs, re.key, re.deleted
+								ne.atoms[lhs+" == nil"] = re.atoms[re.pv+" == nil"]
+								ne.atoms[lhs+" != nil"] = re.atoms[re.pv+" != nil"]
+								return walk(rest, ne, ind, nil)
+							})
+						}
+					}
+				}
+			}
 			if len(v.Lhs) == len(v.Rhs) {
 				ne := clone(e)
 				pre := ""
@@ -294,21 +329,21 @@ func emitDeliver(fs *strings.Builder, p *pkg, c *consts, funcs map[string]string
 					okAll = false
 				}
 				if okAll {
-					return pre + walk(rest, ne, ind)
+					return pre + walk(rest, ne, ind, onReturn)
 				}
 			}
 		case *ast.IfStmt:
 			if v.Init == nil {
 				cond := t.expr(v.Cond)
-				thenPart := walk(append(append([]ast.Stmt{}, v.Body.List...), rest...), clone(e), ind+"  ")
+				thenPart := walk(append(append([]ast.Stmt{}, v.Body.List...), rest...), clone(e), ind+"  ", onReturn)
 				var elsePart string
 				switch el := v.Else.(type) {
 				case nil:
-					elsePart = walk(rest, clone(e), ind+"  ")
+					elsePart = walk(rest, clone(e), ind+"  ", onReturn)
 				case *ast.BlockStmt:
-					elsePart = walk(append(append([]ast.Stmt{}, el.List...), rest...), clone(e), ind+"  ")
+					elsePart = walk(append(append([]ast.Stmt{}, el.List...), rest...), clone(e), ind+"  ", onReturn)
 				case *ast.IfStmt:
-					elsePart = walk(append([]ast.Stmt{el}, rest...), clone(e), ind+"  ")
+					elsePart = walk(append([]ast.Stmt{el}, rest...), clone(e), ind+"  ", onReturn)
 				}
 				return "if " + cond + " then\n" + ind + "  " + thenPart + "\n" + ind + "else\n" + ind + "  " + elsePart
 			}
@@ -316,7 +351,7 @@ func emitDeliver(fs *strings.Builder, p *pkg, c *consts, funcs map[string]string
 		fail("%s: unsupported statement %q", who, src(st))
 		return ""
 	}
-	body := walk(fd.Body.List, e0, "  ")
+	body := walk(fd.Body.List, e0, "  ", nil)
 	fmt.Fprintf(fs, "/-- %s: `Client.deliverLocked` as a whole: what is done with one inbound member. `pendingHas k` = a request is registered under key `k`; `complete k deleted asError` = the slot of the request under `k` is written (with the member, or with its validation error) after the entry was (`deleted`) removed from the pending set -/\n"+
 		"def deliverAct (isReq : Bool) (rawID : List UInt8) (invalid : Bool) (pendingHas : List UInt8 → Bool) : DeliverAct :=\n  %s\n\n", file, body)
 }
